@@ -238,6 +238,50 @@ func enumerate(g *df.SummaryGraph, f func(df.GraphNode)) {
 	}
 }
 
+// callShape describes the call instruction of a call node for the coverage statistics of the check:
+// <call|defer|go> <static|closure|method|bound|invoke|value> <#args incl. receiver of invokes excluded> <user-defined callee 0/1>
+func callShape(cn *df.CallNode) string {
+	kw := "call"
+	switch cn.CallSite().(type) {
+	case *ssa.Defer:
+		kw = "defer"
+	case *ssa.Go:
+		kw = "go"
+	}
+	cc := cn.CallSite().Common()
+	form := "value"
+	nargs := len(cc.Args)
+	if cc.IsInvoke() {
+		form = "invoke"
+	} else if f := cc.StaticCallee(); f != nil {
+		switch {
+		case strings.HasSuffix(f.Name(), "$bound"):
+			form = "bound"
+		case f.Parent() != nil:
+			form = "closure"
+		case f.Signature.Recv() != nil:
+			form = "method"
+			nargs--
+		default:
+			form = "static"
+		}
+	}
+	user := 0
+	if c := cn.Callee(); c != nil {
+		o := c
+		for o.Parent() != nil {
+			o = o.Parent()
+		}
+		if o.Origin() != nil {
+			o = o.Origin()
+		}
+		if summaries.IsUserDefinedFunction(o) || strings.HasSuffix(c.Name(), "$bound") || strings.HasSuffix(c.Name(), "$thunk") {
+			user = 1
+		}
+	}
+	return fmt.Sprintf("%s %s %d %d", kw, form, nargs, user)
+}
+
 func sumName(g *df.SummaryGraph) string {
 	if g.Parent == nil {
 		return "?"
@@ -444,6 +488,9 @@ func (d *ids) blocks(roots []*df.SummaryGraph) map[string]string {
 				}
 			}
 			fmt.Fprintf(&b, "N %d %s %d %d %d %d %d\n", d.nodes[n], kindOf(n), sid, ins, gl, wr, link)
+			if cn, ok := n.(*df.CallNode); ok {
+				fmt.Fprintf(&b, "# cs %d %s %d\n", d.nodes[n], callShape(cn), link)
+			}
 		}
 		for _, n := range ns {
 			out := n.Out()
